@@ -26,6 +26,43 @@ pub(crate) fn posix_parse<S: Src, const N: usize>(s: &mut S) {
     }
 }
 
+/// Grammar-aware variant: a valid POSIX TZ string from a small corpus, truncated at an arbitrary
+/// position, followed by up to `K` arbitrary bytes. Reaches the deeper parser states (DST offset,
+/// rule dates and times) that `posix_parse` cannot reach within its byte bound.
+pub(crate) const CORPUS: [&[u8]; 4] = [b"EST5EDT4,M3.2.0", b"AAA0BBB1,J1,300", b"<-03>3<-02>,M3.", b"ABC-1DEF,59/25,"];
+
+pub(crate) fn posix_parse_seeded<S: Src, const K: usize>(s: &mut S) {
+    let which = s.usize(CORPUS.len() - 1);
+    let base = CORPUS[which];
+    let cut = s.usize(15);
+    s.assume(cut <= base.len());
+    let extra = s.usize(K);
+    let mut buf = [0u8; 18];
+    let mut i = 0;
+    while i < 15 {
+        if i < cut { buf[i] = base[i]; }
+        i += 1;
+    }
+    let mut j = 0;
+    while j < K {
+        let b = s.u8();
+        if j < extra { buf[cut + j] = b; }
+        j += 1;
+    }
+    let len = cut + extra;
+    match crate::shared::PosixTimeZone::parse(&buf[..len]) {
+        Ok(tz) => {
+            s.check(-89_999 <= tz.std_offset.second && tz.std_offset.second <= 89_999, "std offset within the POSIX range");
+            s.reach("ok");
+            core::mem::forget(tz);
+        }
+        Err(e) => {
+            core::mem::forget(e);
+            s.reach("err");
+        }
+    }
+}
+
 pub(crate) fn parse_i64<S: Src, const N: usize>(s: &mut S) {
     let len = s.usize(N);
     let mut buf = [0u8; N];
@@ -69,6 +106,10 @@ mod proofs {
     fn c17_posix_parse_4_witness() { posix_parse::<KaniSrc, 4>(&mut KaniSrc::new()); assert!(false); }
     #[kani::proof] #[kani::unwind(11)] #[kani::stub(alloc::fmt::format, empty_format)]
     fn c17_posix_parse_9() { posix_parse::<KaniSrc, 9>(&mut KaniSrc::new()) }
+    #[kani::proof] #[kani::unwind(20)] #[kani::stub(alloc::fmt::format, empty_format)]
+    fn c17_posix_parse_seeded_2() { posix_parse_seeded::<KaniSrc, 2>(&mut KaniSrc::new()) }
+    #[kani::proof] #[kani::unwind(20)] #[kani::stub(alloc::fmt::format, empty_format)]
+    fn c17_posix_parse_seeded_2_witness() { posix_parse_seeded::<KaniSrc, 2>(&mut KaniSrc::new()); assert!(false); }
     #[kani::proof] #[kani::unwind(22)] #[kani::stub(alloc::fmt::format, empty_format)]
     fn c17_parse_i64_20() { parse_i64::<KaniSrc, 20>(&mut KaniSrc::new()) }
     #[kani::proof] #[kani::unwind(8)] #[kani::stub(alloc::fmt::format, empty_format)]
